@@ -768,3 +768,173 @@ Section Walk.
         split; [rewrite DD3, DD1, <- app_assoc; reflexivity|]. eapply Same_trans; eauto.
   Qed.
 End Walk.
+
+(** * The theorems *)
+Lemma init_Same : forall stack dst s, Same (init_st stack dst) s -> s_calls s = [] /\ s_val s = false /\ s_err s = None.
+Proof. intros stack dst s (A & B & C). cbn in *. auto. Qed.
+
+(** appendRemainderOfString's specification machine, started inside a string: it succeeds exactly on
+    well-formed content followed by the closing quote, consumes it through that quote and appends
+    the decoded content to [dst] (C06) *)
+Theorem append_spec_correct : forall md l h stack dst,
+  match string_body l with
+  | Some k => exists out, decode_content (firstn (pred k) l) = Some out /\
+              obs (prun md append_spec l h stack dst) = ObsDone (Z.of_nat k) None [] (dst ++ out) false
+  | None => exists p e s, prun md append_spec l h stack dst = ODone p (Some e) s
+  end.
+Proof.
+  intros md l h stack dst. set (s0 := init_st stack dst).
+  pose proof (At_init l stack dst) as H0. fold s0 in H0.
+  destruct (string_body l) as [k|] eqn:SB.
+  - destruct (string_body_split l k SB) as (c & q & rest & out & EL & Q & -> & D).
+    exists out. cbn [pred].
+    assert (FC : firstn (length c) l = c) by (rewrite EL, firstn_app, Nat.sub_diag, firstn_all; cbn; apply app_nil_r).
+    rewrite FC. split; [exact D|]. clear FC SB. subst l.
+    destruct (walk md true (c ++ q :: rest) h (length c) c s0 None out (q :: rest) (le_n _) H0 I D
+                ltac:(right; eauto)) as (pend' & s' & R1 & H1 & P1 & PP1 & D1 & S1).
+    set (l := c ++ q :: rest) in *.
+    pose proof (etrans_content true pend' q) as TC. destruct (quote_not q Q) as (NB & _ & _). rewrite NB, Q in TC.
+    assert (R2 : EReach md true l h (est pend') s' EDone (adv (flushed s' pend') 1)).
+    { eapply EReach_step; [exact H1|exact TC| |rewrite s_p_flushed; lia].
+      rewrite <- (app_nil_r (closeu pend')). rewrite (close_exec md l h s' pend' _ [] H1 P1). reflexivity. }
+    assert (H2 : At l (adv (flushed s' pend') 1) rest).
+    { unfold At. cbn [s_p adv set_p]. rewrite s_p_flushed. destruct (AtP_cons l _ _ _ H1) as (_ & _ & A). exact A. }
+    assert (E : EEnds md true l h EStart s0 (fun o => o = ODone (s_p (adv (flushed s' pend') 1)) (s_err (adv (flushed s' pend') 1)) (adv (flushed s' pend') 1))).
+    { eapply EReach_Ends; [exact R1|]. eapply EReach_Ends; [exact R2|]. eapply done_e. exact H2. }
+    apply (EEnds_prun md true l h stack dst) in E. unfold append_spec. rewrite E.
+    destruct (init_Same stack dst s' S1) as (C1 & V1 & E1). destruct (Same_flushed s' pend') as (C2 & V2 & E2).
+    cbn [obs s_p s_err s_calls s_dst s_val adv set_p]. rewrite s_p_flushed, s_dst_flushed, D1, PP1, C2, V2, E2, C1, V1, E1.
+    cbn [ldst s_dst s_p s0 init_st]. f_equal. lia.
+  - assert (E : EEnds md true l h EStart s0 IsErr) by (apply (append_fail md l h (length l) l s0 None (le_n _) H0 I SB)).
+    apply (EEnds_prun md true l h stack dst) in E. exact E.
+Qed.
+
+(** unescapeStringContent's specification machine on well-formed content (the bytes between the quotes
+    of a string token): it consumes all of it and appends its decoding to [dst] (C06) *)
+Theorem unescape_spec_correct : forall md c out h stack dst, decode_content c = Some out ->
+  obs (prun md unescape_spec c h stack dst) = ObsDone (len c) None [] (dst ++ out) false.
+Proof.
+  intros md c out h stack dst D. set (s0 := init_st stack dst).
+  pose proof (At_init c stack dst) as H0. fold s0 in H0.
+  destruct (walk md false c h (length c) c s0 None out [] (le_n _) ltac:(rewrite app_nil_r; exact H0) I D ltac:(left; reflexivity))
+    as (pend' & s' & R1 & H1 & P1 & PP1 & D1 & S1).
+  assert (E : EEnds md false c h EStart s0 (fun o => o = ODone (s_p s') (s_err s') (flushed s' pend'))).
+  { eapply EReach_Ends; [exact R1|]. intros f _. rewrite (econt_eof md false c h f _ s' H1).
+    assert (EO : eeof false (est pend') = closeu pend' ++ []) by (destruct pend'; reflexivity).
+    rewrite EO, (close_exec md c h s' pend' _ [] H1 P1). cbn [exec_units]. rewrite s_p_flushed.
+    destruct (Same_flushed s' pend') as (_ & _ & E2). rewrite E2. reflexivity. }
+  apply (EEnds_prun md false c h stack dst) in E. unfold unescape_spec. rewrite E.
+  destruct (init_Same stack dst s' S1) as (C1 & V1 & E1). destruct (Same_flushed s' pend') as (C2 & V2 & E2).
+  cbn [obs]. rewrite s_dst_flushed, D1, PP1, C2, V2, C1, V1, E1. cbn [ldst s_dst s_p s0 init_st]. reflexivity.
+Qed.
+
+(** the two agree on every string token: unescaping the bytes between the quotes on their own gives
+    what reading the token gives, and consumes all of them *)
+Corollary unescape_agrees_append : forall md l k h stack dst, string_body l = Some k ->
+  exists out, decode_content (firstn (pred k) l) = Some out /\
+    obs (prun md append_spec l h stack dst) = ObsDone (Z.of_nat k) None [] (dst ++ out) false /\
+    obs (prun md unescape_spec (firstn (pred k) l) h stack dst) = ObsDone (len (firstn (pred k) l)) None [] (dst ++ out) false.
+Proof.
+  intros md l k h stack dst SB. pose proof (append_spec_correct md l h stack dst) as A. rewrite SB in A.
+  destruct A as (out & D & A). exists out. split; [exact D|]. split; [exact A|]. apply unescape_spec_correct. exact D.
+Qed.
+
+(** * ReadStringBytes over the specification machine *)
+Lemma stop_plain : forall b, negb (str_stop b) = true -> isb 34 b = false /\ isb 92 b = false /\ r_is_ctl b = false.
+Proof.
+  intros b H. apply negb_true_iff in H. unfold str_stop in H.
+  apply orb_false_iff in H. destruct H as [H H3]. apply orb_false_iff in H. destruct H as [H1 H2].
+  unfold isb, r_is_ctl. rewrite H2, H3. split; [reflexivity|]. split; [reflexivity|].
+  apply Z.leb_gt in H1. apply Z.ltb_ge. lia.
+Qed.
+
+(** the fast scan over plain bytes commutes with the reference functions *)
+Lemma plain_prefix : forall body,
+  let n := count_while (fun b => negb (str_stop b)) body in
+  string_body body = option_map (fun k => (n + k)%nat) (string_body (skipn n body)) /\
+  forall c', decode_content (firstn n body ++ c') = option_map (app (firstn n body)) (decode_content c').
+Proof.
+  induction body as [|b r IH]; cbn zeta.
+  - cbn. split; [reflexivity|]. intros c'. destruct (decode_content c'); reflexivity.
+  - cbn [count_while]. destruct (negb (str_stop b)) eqn:PL.
+    + destruct (stop_plain b PL) as (Q & B & C). destruct IH as [IH1 IH2]. cbn [skipn firstn app]. split.
+      * cbn [string_body]. rewrite Q, B, C, IH1. destruct (string_body (skipn _ r)); reflexivity.
+      * intros c'. cbn [decode_content]. rewrite B, Q, C. cbn [orb]. rewrite IH2. destruct (decode_content c'); reflexivity.
+    + cbn [skipn firstn app Nat.add]. split; [destruct (string_body (b :: r)); reflexivity|]. intros c'. destruct (decode_content c'); reflexivity.
+Qed.
+
+Lemma obs_done : forall o p dst, obs o = ObsDone p None [] dst false -> exists s, o = ODone p None s /\ s_dst s = dst.
+Proof. intros [p' e s|k|] p dst H; cbn in H; try discriminate. inversion H; subst. eauto. Qed.
+
+(** ReadStringBytes succeeds exactly when the reference finds a string token, with the offset after
+    the closing quote and the decoded content appended to the buffer (C06; and C16: the result is
+    [buf ++] the result for an empty buffer) *)
+Theorem ReadStringBytes_spec_correct : forall md data buf,
+  match read_string_ref data buf with
+  | Some (v, p) => ReadStringBytes md append_spec data buf = Some (v, p, None)
+  | None => exists v p e, ReadStringBytes md append_spec data buf = Some (v, p, Some e)
+  end.
+Proof.
+  intros md data buf. unfold read_string_ref, decode_string_ref, ReadStringBytes, countWhitespace.
+  fold (ws data). rewrite Nat2Z.id. set (w := ws data).
+  destruct (skipn w data) as [|q body] eqn:L; [cbn; eauto|].
+  unfold string_tok. change (bz q =? 34) with (isb 34 q).
+  destruct (isb 34 q) eqn:Q; cbn [negb]; [|cbn; eauto].
+  destruct (plain_prefix body) as [PP1 PP2].
+  set (n := count_while (fun b => negb (str_stop b)) body) in *.
+  rewrite PP1.
+  destruct (skipn n body) as [|c rest] eqn:K; [cbn; eauto|].
+  assert (FB : firstn n body ++ c :: rest = body) by (rewrite <- K; apply firstn_skipn).
+  change (bz c =? 34) with (isb 34 c).
+  destruct (isb 34 c) eqn:QC.
+  - (* the closing quote right after the plain bytes *)
+    cbn [string_body]. rewrite QC. cbn [option_map]. replace (S (n + 1) - 2)%nat with n by lia. cbn [skipn].
+    pose proof (PP2 []) as D. rewrite app_nil_r in D. cbn in D. rewrite D. cbn [option_map fst snd].
+    rewrite app_nil_r. do 3 f_equal. lia.
+  - pose proof (append_spec_correct md (c :: rest) no_handler [] (if bz c =? 92 then buf ++ firstn n body else buf)) as A.
+    unfold appendRemainderOfString, str_machine. rewrite prun_c_eq.
+    destruct (string_body (c :: rest)) as [k|] eqn:SB; cbn [option_map].
+    + destruct A as (out & D & A). destruct (obs_done _ _ _ A) as (s & -> & DS).
+      assert (BC : (bz c =? 92) = true).
+      { cbn [string_body] in SB. rewrite QC in SB. change (bz c =? 92) with (isb 92 c). destruct (isb 92 c); [reflexivity|].
+        assert (ST : str_stop c = true).
+        { pose proof (while_next (fun b => negb (str_stop b)) body c rest K) as W. apply negb_false_iff in W. exact W. }
+        unfold str_stop in ST. change (bz c =? 34) with (isb 34 c) in ST. rewrite QC in ST.
+        destruct (isb 92 c) eqn:B2 in ST.
+        - exfalso. clear - SB. discriminate.
+        - rewrite !orb_false_r in ST. assert (C : r_is_ctl c = true) by (unfold r_is_ctl; apply Z.leb_le in ST; apply Z.ltb_lt; lia).
+          rewrite C in SB. discriminate. }
+      rewrite BC in DS.
+      rewrite (string_body_pos _ k SB) in *. cbn [pred] in *.
+      replace (S (n + S (pred k)) - 2)%nat with (n + pred k)%nat by lia. cbn [skipn].
+      assert (FN : firstn (n + pred k) body = firstn n body ++ firstn (pred k) (c :: rest)).
+      { rewrite <- K. clear. revert body. induction n as [|n IH]; intros [|x body]; cbn; auto; [destruct (pred k); reflexivity|].
+        rewrite IH. reflexivity. }
+      rewrite FN, PP2, D. cbn [option_map fst snd]. rewrite DS, <- app_assoc. do 2 f_equal. lia.
+    + destruct A as (p & e & s & ->). eauto.
+Qed.
+
+(** C16 for ReadStringBytes: reading into a buffer appends what reading into an empty buffer returns *)
+Corollary ReadStringBytes_appends : forall md data buf v p,
+  ReadStringBytes md append_spec data [] = Some (v, p, None) ->
+  ReadStringBytes md append_spec data buf = Some (buf ++ v, p, None).
+Proof.
+  intros md data buf v p H. pose proof (ReadStringBytes_spec_correct md data []) as A.
+  pose proof (ReadStringBytes_spec_correct md data buf) as B. unfold read_string_ref in *.
+  destruct (decode_string_ref (skipn (ws data) data)) as [[c n]|]; cbn [option_map fst snd] in *.
+  - rewrite A in H. inversion H; subst. cbn in B. exact B.
+  - destruct A as (v' & p' & e & A). rewrite A in H. discriminate.
+Qed.
+
+(**  "a\n😀" x  *)
+Definition ex_str : list byte :=
+  [x20; x22; x61; x5c; x6e; x5c; x75; x64; x38; x33; x64; x5c; x75; x64; x65; x30; x30; x22; x78].
+Example string_spec_ex :
+  read_string_ref ex_str [x70] = Some ([x70; x61; x0a; xf0; x9f; x98; x80], 18) /\
+  ReadStringBytes 10000 append_spec ex_str [x70] = Some ([x70; x61; x0a; xf0; x9f; x98; x80], 18, None) /\
+  obs (prun 10000 unescape_spec (firstn 15 (skipn 2 ex_str)) no_handler [] []) = ObsDone 15 None [] [x61; x0a; xf0; x9f; x98; x80] false.
+Proof. vm_compute. auto. Qed.
+Print Assumptions append_spec_correct.
+Print Assumptions unescape_spec_correct.
+Print Assumptions ReadStringBytes_spec_correct.
+Print Assumptions ReadStringBytes_appends.
